@@ -123,6 +123,8 @@ pub fn gen_world_cfg(s: &mut Src, prof: &Profile) -> WorldCfg {
         n_bystanders: 2,
         initial_balance: 1u128 << 122,
         allowance: 1u128 << 124,
+        denoms: vec![],
+        unregistered: vec![],
     }
 }
 
